@@ -1,7 +1,53 @@
-(* C05 GraphColoring (terminate-on-invalid): a masked-out colour gives LAST with reward -num_nodes; the graph is untouched *)
-Require Import JV.Base.Prelude JV.Base.JaxIndex JV.Base.Codec JV.Base.TimeStep JV.Model.GraphColoring JV.Proofs.GraphColoring.
+(* C05 GraphColoring (terminate-on-invalid).  docs/environments/graph_coloring.md: "If an invalid action is attempted, the
+   episode immediately terminates and the agent receives a large negative reward"; env.py docstring: "the reward is the
+   negative of the total number of colors".  Nothing is promised about the state, and the code does NOT leave it alone:
+   a masked-out colour gives LAST, reward -num_nodes, discount 0, and the state component is computed exactly as for a
+   legal colour - the illegal colour IS written into colors[current node], the node index advances ((cur+1) mod n), the
+   mask is recomputed; only the graph is untouched.  On every state of the weak invariant (reset, closed under every in-spec
+   colour) this means: the emitted terminal colouring contains the illegal colour at the current node, every other node
+   keeps its colour, and the colouring is NOT proper (the node and one of its neighbours share the colour).
+   Conversely a legal colour is never punished. *)
+Require Import JV.Base.Prelude JV.Base.JaxIndex JV.Base.Codec JV.Base.TimeStep JV.Model.GraphColoring JV.Proofs.GraphColoring
+  JV.Proofs.GraphColoring_rules JV.Proofs.GraphColoring_episode JV.Proofs.GraphColoring_gen.
 Theorem C05_GraphColoring_invalid_terminates n s a :
   jget false (amask s) a = false ->
   snd (step n s a) = termination 1 [- n] /\ adj (fst (step n s a)) = adj s.
 Proof. exact (invalid_terminates n s a). Qed.
 Print Assumptions C05_GraphColoring_invalid_terminates.
+Theorem C05_GraphColoring_invalid_exact n s a :
+  jget false (amask s) a = false ->
+  step n s a = (mkS (adj s) (jset (colors s) (cur s) a) ((cur s + 1) mod n)
+                    (valid_actions n ((cur s + 1) mod n) (adj s) (jset (colors s) (cur s) a)),
+                termination 1 [- n]).
+Proof. exact (C05_invalid_exact n s a). Qed.
+Theorem C05_GraphColoring_state_independent_of_validity n s a :
+  fst (step n s a) = mkS (adj s) (jset (colors s) (cur s) a) ((cur s + 1) mod n)
+                         (valid_actions n ((cur s + 1) mod n) (adj s) (jset (colors s) (cur s) a)).
+Proof. exact (C05_state_independent_of_validity n s a). Qed.
+Theorem C05_GraphColoring_invalid_colour_is_written n s a :
+  0 < n -> Inv0 n s -> 0 <= a < n -> ~ legal n (adj s) (colors s) (cur s) a ->
+  let s' := fst (step n s a) in
+  snd (step n s a) = termination 1 [- n]
+  /\ adj s' = adj s
+  /\ color_of (colors s') (cur s) = a
+  /\ (forall j, 0 <= j < n -> j <> cur s -> color_of (colors s') j = color_of (colors s) j)
+  /\ cur s' = next_node n (cur s)
+  /\ (exists j, 0 <= j < n /\ j <> cur s /\ edge (adj s) (cur s) j = true
+                /\ color_of (colors s') j = color_of (colors s') (cur s) /\ 0 <= color_of (colors s') j)
+  /\ ~ proper n (adj s') (colors s').
+Proof. exact (C05_invalid_colour_is_written n s a). Qed.
+Print Assumptions C05_GraphColoring_invalid_colour_is_written.
+Theorem C05_GraphColoring_legal_colour_accepted n s a :
+  0 < n -> Inv0 n s -> 0 <= a < n -> legal n (adj s) (colors s) (cur s) a ->
+  let s' := fst (step n s a) in
+  snd (step n s a) = (if complete_b n (colors s') then termination 1 [- colours_used n (colors s')] else transition 1 [0])
+  /\ colors s' = paint n (colors s) (cur s) a.
+Proof. exact (C05_legal_colour_accepted n s a). Qed.
+Print Assumptions C05_GraphColoring_legal_colour_accepted.
+Example C05_GraphColoring_nonvacuous :
+  let adj0 := gen_adj 3 [[true;true;true];[true;true;true];[false;true;true]] in
+  let s1 := fst (step 3 (fst (init 3 adj0)) 0) in
+  edge adj0 1 0 = true /\ legal_b 3 adj0 (colors s1) (cur s1) 0 = false /\ jget false (amask s1) 0 = false
+  /\ step 3 s1 0 = (mkS adj0 [0; 0; -1] 2 [false; true; true], termination 1 [-3])
+  /\ proper_b 3 adj0 (colors s1) = true /\ proper_b 3 adj0 (colors (fst (step 3 s1 0))) = false.
+Proof. vm_compute. repeat split; reflexivity. Qed.
